@@ -283,7 +283,11 @@ DevSig(d, e) ==
                    \/ ("in_new" \in DOMAIN e.calib[k] /\ e.calib[k].in_new.s = 2)
                    \/ ("outsc_before" \in DOMAIN e.calib[k] /\ e.calib[k].outsc_before.s = 2)
                    \/ ("insc_before" \in DOMAIN e.calib[k] /\ e.calib[k].insc_before.s = 2))
-            \/ (e.act = "Forward" /\ e.outcome = "ok" /\ (~e.out.finite \/ \E k \in 1..Len(e.recipes) : \E j \in 1..Len(e.recipes[k].out) :
+            \/ (e.act = "Forward" /\ e.outcome = "ok"
+                \* (values only: every module still returns the shape, dtype and kind of tensor the recipe prescribes)
+                /\ (\A k \in 1..Len(e.recipes) : LET r == e.recipes[k] IN
+                       r.shape_ok /\ r.out_dtype = r.ref_dtype /\ ((r.aq # "none") <=> (r.out_kind = "QBytes")) /\ (r.out_kind = "QBytes" => r.out_qtype = r.aq))
+                /\ (~e.out.finite \/ \E k \in 1..Len(e.recipes) : \E j \in 1..Len(e.recipes[k].out) :
                     \/ e.recipes[k].out[j].s = 2 \/ e.recipes[k].ref[j].s = 2
                     \* an infinite intermediate re-quantized with the output scale lands exactly on the end of the float8 grid
                     \/ (e.recipes[k].out_kind = "QBytes" /\ e.recipes[k].out_qtype \in {"qfloat8", "qfloat8_e4m3fn", "qfloat8_e5m2"}
